@@ -105,7 +105,8 @@ theorem stopRemove_find (s : State) (g n : String) :
           simp [this]
         simp [this]
 
-def freshActive (c : GConfig) : Active := { cfg := c, procs := freshProcs c }
+/-- the entry a group gets when it is activated: AUTO log files resolved, processes never started -/
+def freshActive (c : GConfig) : Active := { cfg := resolveCfg c, procs := freshProcs c }
 
 def fileCfg (file : List GConfig) (g : String) : Option GConfig := file.find? fun c => c.name == g
 
@@ -145,18 +146,18 @@ theorem add_find (s : State) (g n : String) :
       refine ⟨?_, trivial⟩
       have hcn : c.name = g := fileCfg_name s.file g c hc
       rw [find_eq]
-      show (s.active ++ [({ cfg := c, procs := freshProcs c } : Active)]).find? (nameIs n) = _
+      show (s.active ++ [({ cfg := resolveCfg c, procs := freshProcs c } : Active)]).find? (nameIs n) = _
       rw [List.find?_append]
       by_cases hn : n = g
       · subst hn
         rw [find_eq] at hf
-        simp [hf, fileCfg, hc, freshActive, nameIs, hcn]
+        simp [hf, fileCfg, hc, freshActive, nameIs, resolveCfg, hcn]
       · simp only [hn, if_false, find_eq]
         cases s.active.find? (nameIs n) with
         | some x => rfl
         | none =>
-          have : nameIs n ({ cfg := c, procs := freshProcs c } : Active) = false := by
-            simp [nameIs, hcn]; exact fun e => hn e.symm
+          have : nameIs n ({ cfg := resolveCfg c, procs := freshProcs c } : Active) = false := by
+            simp [nameIs, resolveCfg, hcn]; exact fun e => hn e.symm
           simp [this]
 
 theorem runCalls_append (s : State) (a b : List Call) : runCalls s (a ++ b) = runCalls (runCalls s a) b := by
